@@ -166,6 +166,7 @@ func checkC07(c *Ctx, r *Report) {
 
 // healthyComparison: v is `X.Status == healthy` with X a HealthCheckResult.
 func healthyComparison(c *Ctx, v ssa.Value) bool {
+	v = predicateExpr(v)
 	bo, ok := v.(*ssa.BinOp)
 	if !ok || bo.Op != token.EQL {
 		return false
@@ -192,7 +193,7 @@ func checkScheduleReset(c *Ctx, r *Report) {
 			}
 			k, isK := constInt(st.Val)
 			var fact *condFact
-			for _, cf := range condFacts(in.Block()) {
+			for _, cf := range normFacts(condFacts(in.Block())) {
 				if healthyComparison(c, cf.Cond) {
 					cfc := cf
 					fact = &cfc
@@ -746,7 +747,7 @@ func checkC08(c *Ctx, r *Report) {
 			found := false
 			eachInstr(rs, func(in ssa.Instruction) {
 				if isZeroFail(in) {
-					for _, cf := range condFacts(in.Block()) {
+					for _, cf := range normFacts(condFacts(in.Block())) {
 						if bo, ok := cf.Cond.(*ssa.BinOp); ok && bo.Op == token.EQL && cf.True {
 							if k, ok := constInt(bo.Y); ok && k == 0 {
 								found = true
@@ -971,7 +972,7 @@ func isRetryCancelledExit(ret *ssa.Return) bool {
 
 // hasGuardFacts: some dominating condition compares endpoint statuses (the recovery guard lives here).
 func hasGuardFacts(at ssa.Instruction) bool {
-	for _, cf := range condFacts(at.Block()) {
+	for _, cf := range normFacts(condFacts(at.Block())) {
 		if bo, ok := cf.Cond.(*ssa.BinOp); ok && (mentionsField(bo.X, pkgDomain, "HealthCheckResult", "Status", 2) || mentionsField(bo.Y, pkgDomain, "HealthCheckResult", "Status", 2)) {
 			return true
 		}
